@@ -130,6 +130,9 @@ pub enum ChildSpec {
     /// that changes how many tokens it takes moves its later siblings, which is its author's
     /// business while events are in flight
     MaybeTimer,
+    /// (TransientSource harness) a user-written child over a pipe that calls back for every
+    /// event it is handed, whatever its registration state
+    Eager,
 }
 
 #[derive(Serialize, Deserialize, Clone, Debug, PartialEq)]
@@ -312,6 +315,8 @@ pub enum Op {
     /// the parent puts a new `TransientSource::from(child)` into its (empty) slot and asks for
     /// a re-registration: the child's first registration call is reregister(), not register()
     TrAssign(Id, ChildSpec, bool),
+    /// fork a child that exits at once: a kernel-sent SIGCHLD whose sender is the child
+    SpawnChild,
     TrReplaceLazy(Id, ChildSpec),
     /// EventLoop::block_on(future): the future returns Pending `pendings` times; each time it
     /// either wakes itself during the poll (yield pattern) or relies on an environment Wakeup /
@@ -464,6 +469,7 @@ impl Op {
             Op::TrChildFail(..) => "TrChildFail",
             Op::TrReplaceFailRetry(..) => "TrReplaceFailRetry",
             Op::TrAssign(..) => "TrAssign",
+            Op::SpawnChild => "SpawnChild",
             Op::TrReplaceLazy(..) => "TrReplaceLazy",
             Op::BlockOn { .. } => "BlockOn",
             Op::ManyPings { .. } => "ManyPings",
